@@ -256,3 +256,133 @@ fn twin_cur_advance_by() {
     c.advance_by(n);
     assert!(false, "TWIN: reachable");
 }
+
+// ---------------------------------------------------------------------------------------------
+// `Txt`: symbolic text with its code-point structure known to the harness, so that oracles are
+// arithmetic over char indices instead of UTF-8 decoding of symbolic bytes (which CBMC pays for
+// dearly). The bytes are still real UTF-8 and are what the code under test decodes.
+
+pub(crate) struct Txt<const K: usize, const B: usize> {
+    pub(crate) buf: [u8; B],
+    /// total byte length (prefix + symbolic part)
+    pub(crate) len: usize,
+    /// bytes / chars / line feeds of the constant prefix
+    pub(crate) pre_b: usize,
+    pub(crate) pre_c: u32,
+    pub(crate) pre_nl: u32,
+    /// byte offset / char offset of the start of the last prefix line
+    pub(crate) pre_line_b: usize,
+    pub(crate) pre_line_c: u32,
+    /// number of symbolic chars (<= K), the chars, and the absolute byte offset where each starts
+    pub(crate) n: usize,
+    pub(crate) ch: [char; K],
+    pub(crate) start: [usize; K],
+}
+
+impl<const K: usize, const B: usize> Txt<K, B> {
+    /// `prefix` must be a constant; `fixed` are constant leading chars of the symbolic part
+    /// (focus of a harness instance), followed by up to K - fixed.len() arbitrary chars.
+    pub(crate) fn any(prefix: &str, fixed: &[char]) -> Self {
+        let mut buf = [0u8; B];
+        let pb = prefix.as_bytes();
+        let mut i = 0;
+        while i < pb.len() {
+            buf[i] = pb[i];
+            i += 1;
+        }
+        let pre_b = pb.len();
+        let mut pre_c = 0u32;
+        let mut pre_nl = 0u32;
+        let mut pre_line_b = 0usize;
+        let mut pre_line_c = 0u32;
+        let mut it = prefix.char_indices();
+        while let Some((o, c)) = it.next() {
+            pre_c += 1;
+            if c == '\n' {
+                pre_nl += 1;
+                pre_line_b = o + 1;
+                pre_line_c = pre_c;
+            }
+        }
+        let extra: usize = kani::any();
+        kani::assume(extra <= K - fixed.len());
+        let n = fixed.len() + extra;
+        let mut ch = ['\0'; K];
+        let mut start = [0usize; K];
+        let mut pos = pre_b;
+        let mut i = 0;
+        while i < K {
+            if i < n {
+                let c: char = if i < fixed.len() { fixed[i] } else { kani::any() };
+                ch[i] = c;
+                start[i] = pos;
+                pos += c.encode_utf8(&mut buf[pos..]).len();
+            }
+            i += 1;
+        }
+        Txt { buf, len: pos, pre_b, pre_c, pre_nl, pre_line_b, pre_line_c, n, ch, start }
+    }
+
+    pub(crate) fn as_str(&self) -> &str {
+        unsafe { std::str::from_utf8_unchecked(&self.buf[..self.len]) }
+    }
+
+    /// Index (0..=n) of the symbolic char that starts at absolute byte offset `p` (n for the end of
+    /// the text); None if `p` is not a char boundary of the symbolic part.
+    pub(crate) fn idx_of(&self, p: usize) -> Option<usize> {
+        let mut res = None;
+        let mut i = 0;
+        while i < K {
+            if i < self.n && self.start[i] == p {
+                res = Some(i);
+            }
+            i += 1;
+        }
+        if p == self.len {
+            res = Some(self.n);
+        }
+        res
+    }
+
+    /// absolute byte offset of boundary index `i` (0..=n)
+    pub(crate) fn byte_at(&self, i: usize) -> usize {
+        if i < self.n {
+            self.start[i]
+        } else {
+            self.len
+        }
+    }
+
+    /// absolute char offset of boundary index i
+    pub(crate) fn char_at(&self, i: usize) -> u32 {
+        self.pre_c + i as u32
+    }
+
+    /// number of line feeds among symbolic chars [0, i)
+    pub(crate) fn nl_upto(&self, i: usize) -> u32 {
+        let mut c = 0u32;
+        let mut j = 0;
+        while j < K {
+            if j < i && j < self.n && self.ch[j] == '\n' {
+                c += 1;
+            }
+            j += 1;
+        }
+        c
+    }
+
+    /// (absolute byte offset, absolute char offset) of the start of the line containing boundary i
+    pub(crate) fn line_start(&self, i: usize) -> (usize, u32) {
+        let mut b = self.pre_line_b;
+        let mut c = self.pre_line_c;
+        let mut j = 0;
+        while j < K {
+            if j < i && j < self.n && self.ch[j] == '\n' {
+                b = self.byte_at(j + 1);
+                c = self.char_at(j + 1);
+            }
+            j += 1;
+        }
+        (b, c)
+    }
+}
